@@ -18,12 +18,12 @@ class C03(ProgProp):
             shape = rng.choice(["chain", "chain", "chain", "tree", "staircase"])
             big = tier == "thorough" or rng.random() < 0.25
             if shape == "chain":
-                n = rng.choice([1200, 3000, 12000, 50000]) if big else rng.choice([50, 400, 1100, 2500])
+                n = rng.choice([1200, 3000, 12000, 40000, 50000]) if big else rng.choice([50, 400, 1100, 2500])
             elif shape == "tree":
                 n = rng.choice([(2, 12), (3, 8), (10, 4)]) if big else rng.choice([(2, 6), (3, 4), (5, 3)])
             else:
                 n = rng.choice([200, 600]) if big else rng.choice([5, 40, 120])
-            return {"deep": shape, "n": n, "leaf": rng.choice(["value", "item", "error"]),
+            return {"deep": shape, "n": n, "leaf": rng.choice(["value", "item", "error", "sync", "sync"]),
                     "catch_at": rng.choice([None, None, 0, 1, 7]), "conv": rng.choice(["call", "value"]),
                     "shared": rng.random() < 0.3}
         if k % 8 == 3:
@@ -77,9 +77,25 @@ class C03(ProgProp):
                 n = int(case.get("n", 10))
 
                 @A.asynq()
+                def helper():
+                    mark_start("helper")
+                    v = yield item()
+                    w = yield helper2.asynq()
+                    return 0
+
+                @A.asynq()
+                def helper2():
+                    mark_start("helper2")
+                    return 0
+
+                @A.asynq()
                 def chain(i):
                     mark_start(i)
                     if i == 0:
+                        if leaf == "sync":
+                            # a synchronous asynq call made from the bottom of the chain: the
+                            # nested wait starts above a task stack that is already n deep
+                            return helper()
                         if leaf == "item":
                             v = yield item()
                             return 0
@@ -96,12 +112,12 @@ class C03(ProgProp):
                         raise
                     check_resume(i, child)
                     return v + 1
-                total = n + 1
+                total = n + 1 + (2 if leaf == "sync" else 0)
                 if leaf == "error":
                     expected = ("V", -1000000 + (n - min(catch_at, n))) if catch_at is not None and min(catch_at, n) >= 1 else ("E", boom)
                 else:
                     expected = ("V", n)
-                expected_flushes = 1 if leaf == "item" else 0
+                expected_flushes = 1 if leaf in ("item", "sync") else 0
                 thunk = (lambda: chain(n)) if case.get("conv") == "call" else (lambda: chain.asynq(n).value())
             elif shape == "tree":
                 fan, depth = case.get("n", (2, 3))
